@@ -52,7 +52,8 @@ RULE = ("unwrapper: (1) tables - for every listed start state L (reached on a fr
         "TLC random walks of the same generator and seeded random chains, every result validated statefully by Trace_Unwrap. "
         "NTP: seeded samples (t, t2, ref) executed on the real functions, every clause of Ntp.tla evaluated by Apalache per "
         "sample. distinct_nontrivial = number of distinct recorded unwrapper traces that contain a table with >= 2 runs or a "
-        "result different from its input, plus the number of distinct NTP samples whose 64-bit value differs from the ideal one.")
+        "result different from its input, plus the number of distinct NTP samples whose round trip is not the identity or whose "
+        "pair (t, t2) maps to two different 64-bit values.")
 
 
 # ------------------------------------------------------------------------------------------ parallel helper
@@ -514,8 +515,7 @@ def ntp_run(ch, samples, tag, chunk, width):
     ch.extra["ntp_apalache_wall_s"] = round(ch.extra.get("ntp_apalache_wall_s", 0) + time.time() - t0, 1)
     ch.extra["ntp_clause_evaluations"] = ch.extra.get("ntp_clause_evaluations", 0) + 5 * len(rows)
     ch.cov["evaluations"] += len(rows)
-    # non-trivial = the float path actually rounded (64-bit value differs from ... cannot be computed here without the
-    # ideal value; use: round trip is not the identity or the pair maps to distinct values)
+    # non-trivial = the float64 path visibly rounded (round trip is not the identity) or the pair maps to distinct values
     ch.cov["distinct_nontrivial"] += len({(e["t"], e["n"]) for e in rows if e["back"] != e["t"] or e["n"] != e["n2"]})
     vlib.add_samples(ch, [rows[len(rows) // 2]], 1)
     bad_rows = {}
@@ -573,6 +573,10 @@ def _finish(ctx):
     ]
     extra = dict(ctx.extra)
     extra["engines"] = ["tlc", "apalache", "go-harness"]
+    tb = [b for b in extra.get("table_batches", []) if b["tables"] >= 10 and b["wall_s"] > 0]
+    if tb:
+        # measured on this run (includes JVM start, trace parsing and the Go execution of the batch)
+        extra["tlc_pairs_per_s_per_process"] = int(sum(b["tables"] * M / b["wall_s"] for b in tb) / len(tb))
     return vlib.finish(ctx, "model_checking", RULE, extra_cov=extra)
 
 
